@@ -63,7 +63,9 @@ func WeightedSampling(sampleNum int, totalNum int, getWeight func(int) float64) 
 	for i := 0; i < totalNum; i++ {
 		ui := rand.Float64()
 		// 与 ui^(1/wi) 同序, 但在对数域计算, 权重极小或极大时不会下溢为0或舍入为1
-		ki := math.Log(getWeight(i)) - math.Log(-math.Log(ui))
+		// math.Log对次正规数(subnormal)的结果不准确, 因此先用Frexp规格化后再取对数
+		fr, exp := math.Frexp(getWeight(i))
+		ki := math.Log(fr) + float64(exp)*math.Ln2 - math.Log(-math.Log(ui))
 
 		if h.Len() < sampleNum {
 			heap.Push(&h, sampleHeapItem{ki: ki, index: i})
